@@ -267,9 +267,14 @@ impl<S: Read> Master<S> {
             }
         }
         process = Limiter::create_process(self.cli.skip, self.cli.take, process);
-        for sorter in &self.cli.sort_by {
+        for (index, sorter) in self.cli.sort_by.iter().enumerate() {
             let sorter = Sorter::from_str(sorter)?;
-            let max_size = self.cli.take.map(|take| (self.cli.skip + take) as usize);
+            // only the sorter that feeds the limiter may drop rows; the others order ties for it
+            let max_size = self
+                .cli
+                .take
+                .filter(|_| index == 0)
+                .map(|take| (self.cli.skip + take) as usize);
             process = sorter.create_processor(process, max_size);
         }
         if self.cli.unique {
